@@ -56,6 +56,11 @@ type Case struct {
 	CLI *CLICase `json:"cli,omitempty"`
 	// only the command line part (the enumeration of spellings)
 	CLIOnly bool `json:"cli_only,omitempty"`
+	// other files in the prefix directory of both stores before the coexistence checks:
+	// lo hi (damaged chunks of both formats under lower / higher IDs), tmp, junk (mixed_test.go)
+	Neighbours []string `json:"neighbours,omitempty"`
+	// StoreChunk of both formats in a child process whose files cannot grow beyond a limit (short_test.go)
+	Short *ShortCase `json:"short,omitempty"`
 	// what an interrupted writer left in the prefix directory of store 1 (store_test.go)
 	Leftovers []Leftover `json:"leftovers,omitempty"`
 	// additionally: clients storing one ID into one directory at the same time (store_test.go)
@@ -115,6 +120,20 @@ func genCase(t *rapid.T) Case {
 		c.CLI = genCLI(t)
 	}
 	c.Leftovers = genLeftovers(t)
+	for _, k := range neighbourKinds {
+		if rapid.Bool().Draw(t, "neighbour."+k) {
+			c.Neighbours = append(c.Neighbours, k)
+		}
+	}
+	short := true // 1 in 32 (thorough: 8): a child process per case
+	for i := 0; i < hx.Pick(5, 3); i++ {
+		if !rapid.Bool().Draw(t, "short") {
+			short = false
+		}
+	}
+	if short {
+		c.Short = genShort(t)
+	}
 	// 1 in 32 (thorough: 8), by fair single-bit draws (rapid favours the ends of integer ranges)
 	conc := true
 	for i := 0; i < hx.Pick(5, 3); i++ {
@@ -343,6 +362,7 @@ type model struct {
 	data     []byte          // the chunk
 	everBoth bool
 	ignore   map[string]bool // planted leftovers: theirs to stay or go
+	nbr      []*neighbour    // other files in the prefix directory (mixed_test.go)
 }
 
 func (m *model) present(unc bool) bool { return m.state[unc] != absent }
@@ -379,8 +399,9 @@ func (m *model) compare(o *hx.Outcome, base string, whoActed bool, op string) {
 			}
 		}
 	}
+	m.compareNeighbours(o, s, whoActed, op)
 	for name := range s.files {
-		if name != m.path[false] && name != m.path[true] && !m.ignore[name] {
+		if name != m.path[false] && name != m.path[true] && !m.ignore[name] && !m.isNeighbour(name) {
 			o.Fail("C20:layout:extra-file", "%s store: unexpected file %s after %s of the %s client", m.label, name, op, modeName(whoActed))
 		}
 	}
@@ -508,7 +529,7 @@ func (m *model) observe(o *hx.Outcome, base string, unc bool, n int, repair bool
 	if err != nil {
 		o.Fail("C20:verify:error", "%s: Verify(n=%d, repair=%v): %v", where, n, repair, err)
 	}
-	if out := w.String(); out != "" && own != corrupt {
+	if out := strings.TrimSpace(m.verifyNeighbours(o, base, unc, repair, w.String(), where)); out != "" && own != corrupt {
 		sig := "C20:read:verify-complains"
 		if own == absent || foreign == corrupt {
 			sig = "C20:coexist:verified-other-format"
@@ -770,7 +791,9 @@ func run(c Case) (o hx.Outcome) {
 			}
 		}
 	}
+	nbKinds := normNeighbours(c.Neighbours)
 	if m1.present(false) && m1.present(true) {
+		m1.plantNeighbours(base1, nbKinds, c.Seed, c.Corrupt == "otherdata")
 		m1.exercise(&o, base1, c)
 	}
 
@@ -848,9 +871,24 @@ func run(c Case) (o hx.Outcome) {
 	}
 	cacnk0, raw0 := m2.state[false], m2.state[true]
 	violationsBefore := len(o.Violations)
+	m2.plantNeighbours(base2, nbKinds, c.Seed+1, c.Corrupt != "otherdata")
 	m2.exercise(&o, base2, c)
 	if otherFrame != nil && otherFrame.Compressed > 0 && len(o.Violations) == violationsBefore {
 		crossEntropy = true // desync decoded (GetChunk, Verify, HTTP) an entropy-coded frame of the other implementation
+	}
+
+	for _, k := range nbKinds {
+		o.Class("mixed:" + k)
+	}
+	if len(nbKinds) == 0 {
+		o.Class("mixed:none")
+	}
+
+	// ---- StoreChunk while files cannot grow beyond a limit
+	shortKey := ""
+	if c.Short != nil {
+		runShort(&o, c, root, data)
+		shortKey = fmt.Sprintf("%+v", c.Short.norm())
 	}
 
 	// ---- clients storing the same ID at the same time
@@ -926,8 +964,8 @@ func run(c Case) (o hx.Outcome) {
 		"first_writer": c.Mode, "s2_cacnk": c.Cacnk, "s2_raw": raw0, "corrupt": c.Corrupt, "first": c.First, "n": c.N,
 		"repair": c.Repair, "keep": c.Keep, "desync_frame": dfd, "other_frame": ofd,
 		"prov_first": provs[0].key(), "prov_second": provs[1].key(), "cli": cliKey,
-		"leftovers": leftoverKey(c.Leftovers), "conc": concKey}
-	o.Key = fmt.Sprintf("%s/%d/%s/%s/%s/%s/%s/%s/%v/%v/%s/%s", buildName, len(data), c.Fill, c.Mode, c.Cacnk, raw0, c.Corrupt, c.First, c.Repair, c.Keep, provs[0].key(), provs[1].key()) + "/" + cliKey + "/" + leftoverKey(c.Leftovers) + "/" + concKey
+		"leftovers": leftoverKey(c.Leftovers), "conc": concKey, "neighbours": strings.Join(nbKinds, "+"), "short": shortKey}
+	o.Key = fmt.Sprintf("%s/%d/%s/%s/%s/%s/%s/%s/%v/%v/%s/%s", buildName, len(data), c.Fill, c.Mode, c.Cacnk, raw0, c.Corrupt, c.First, c.Repair, c.Keep, provs[0].key(), provs[1].key()) + "/" + cliKey + "/" + leftoverKey(c.Leftovers) + "/" + concKey + "/" + strings.Join(nbKinds, "+") + "/" + shortKey
 	return o
 }
 
@@ -946,6 +984,8 @@ func required() []string {
 	}
 	r = append(r, provRequired()...)
 	r = append(r, storeRequired()...)
+	r = append(r, mixedRequired()...)
+	r = append(r, shortRequired()...)
 	r = append(r, "build:desync="+desyncImpl+",other="+other.Name())
 	// (the driver checks the required classes separately for each build)
 	return r
@@ -954,7 +994,7 @@ func required() []string {
 var spec = &hx.Spec[Case]{
 	ID:    "C20",
 	Level: "exploration",
-	Rule: "cases = (chunk of 1 byte .. 1 MiB: zero/random/text/mixed; desync client that writes first; for each of the two StoreChunk calls into the desync-written store the provenance of the chunk: NewChunk | NewChunkWithID | GetChunk from a source LocalStore | through desync.Cache | through desync.Copy | through RemoteHTTP from a chunk server | PUT to a chunk server over the destination, with source/wire format same as or opposite to the destination, SkipVerify of the source, Data() called before storing or not; 0..3 leftovers of interrupted writers (.tmp-cacnk.<id>, .tmp-cacnk.<id>.cacnk, other IDs, random suffixes; empty, partial or complete content of either format) planted in the prefix directory before the first or the second StoreChunk; in 1 of 32 cases (thorough: 8) additionally a directory into which a compressed and an uncompressed client (or two of each, or three of one format) store one ID at the same time for 8..20 (thorough 40..120) rounds with shifting start offsets; a second store directory holding <id>.cacnk in {absent, one-shot frame, streaming frame without content size, corrupt} written by the other zstd implementation and <id> in {absent, valid, corrupt}; client order, verify workers/repair, prune keep set); " +
+	Rule: "cases = (chunk of 1 byte .. 1 MiB: zero/random/text/mixed; desync client that writes first; for each of the two StoreChunk calls into the desync-written store the provenance of the chunk: NewChunk | NewChunkWithID | GetChunk from a source LocalStore | through desync.Cache | through desync.Copy | through RemoteHTTP from a chunk server | PUT to a chunk server over the destination, with source/wire format same as or opposite to the destination, SkipVerify of the source, Data() called before storing or not; 0..3 leftovers of interrupted writers (.tmp-cacnk.<id>, .tmp-cacnk.<id>.cacnk, other IDs, random suffixes; empty, partial or complete content of either format) planted in the prefix directory before the first or the second StoreChunk; in 1 of 32 cases (thorough: 8) additionally a directory into which a compressed and an uncompressed client (or two of each, or three of one format) store one ID at the same time for 6..12 (thorough 40..120) rounds with shifting start offsets; 0..4 other files in the prefix directory of both stores before the coexistence checks (damaged chunks of both formats under IDs sorting below and above the chunk's, a temp leftover, a non-chunk file); in 1 of 32 cases (thorough: 8) additionally StoreChunk of both formats in a child process under RLIMIT_FSIZE below/at/above the on-disk size of either format; a second store directory holding <id>.cacnk in {absent, one-shot frame, streaming frame without content size, corrupt} written by the other zstd implementation and <id> in {absent, valid, corrupt}; client order, verify workers/repair, prune keep set); " +
 		"the package runs once per build (desync=klauspost/other=libzstd and desync=libzstd/other=klauspost); " +
 		"non-trivial = a frame with at least one compressed-type block was decoded across implementations (other decodes desync's file, or desync reads the other's file), or the generated store held both formats of the ID (the store of a command-line case always does); " +
 		"distinct by (build, length, fill, first writer, .cacnk state, raw state, corruption kind, client order, repair, keep, provenance of both stored chunks)",
@@ -965,6 +1005,8 @@ var spec = &hx.Spec[Case]{
 		"github.com/DataDog/zstd v1.5.2 (bundled libzstd 1.5.2) stands for the reference libzstd",
 		"coexistence is checked for LocalStore and desync.NewHTTPHandler on top of it; S3/SFTP stores belong to C16",
 		"what Verify prints or removes for a corrupt file of the client's own format is not judged here (C16)",
+		"mixed prefix directories: damaged chunks are planted under chosen IDs (the chunk's first four hex digits, then 0…c/0…d/f…c/f…d); of a client's own damaged chunks only 'reported by Verify' and 'gone after Verify with repair' are demanded, independent of where they sort among files of no concern to it",
+		"short writes: RLIMIT_FSIZE in a re-exec'd child of the test binary (SIGXFSZ ignored); the on-disk size of the compressed form is computed with desync.Compress of the same build; leftover temp files after a failed store are not judged",
 		"planted leftovers (.tmp-cacnk*) may stay or disappear at any time without a verdict (Prune removes them: C16); they must never be taken for the chunk, and a StoreChunk that returns nil must have produced the client's own object whatever lies in the directory",
 		"the concurrent part has no hook inside StoreChunk: overlap of the writers comes from releasing them together, from free-running store/look/remove loops of one client per format, and from start offsets (busy loops, a dummy compression) that shift from round to round; a defect that needs a particular interleaving is found with a probability, not with certainty",
 		"source stores of the provenance dimension are written by hand (raw bytes, or one frame made by the other implementation or by desync.Compress), never by the StoreChunk under test; a Chunk's internal state is not observable (unexported fields): 'storage-only' is inferred from SkipVerify of the source and no Data()/ID() call before storing",
@@ -977,7 +1019,12 @@ var spec = &hx.Spec[Case]{
 	Watchdog: hx.Pick(120*time.Second, 300*time.Second),
 }
 
-func TestMain(m *testing.M) { hx.Main(m) }
+func TestMain(m *testing.M) {
+	if job := os.Getenv("VERIF_C20_CHILD"); job != "" {
+		shortChild(job) // never returns
+	}
+	hx.Main(m)
+}
 
 func TestRegress(t *testing.T) { hx.Regress(t, spec) }
 func TestKnown(t *testing.T)   { hx.Known(t, spec) }
@@ -1004,6 +1051,12 @@ func TestEnum(t *testing.T) {
 						c := Case{Size: "enum", Fill: fill, Len: l, Seed: uint64(l)*977 + uint64(k), Mode: mode, Cacnk: cacnk, Raw: raw,
 							Corrupt: []string{"otherdata", "garbage", "empty", "truncated"}[k%4],
 							First:   []string{"compressed", "uncompressed"}[(k/2)%2], N: 1 + k%3, Repair: k%3 == 0, Keep: k%5 == 0}
+						// every subset of the neighbours of a mixed prefix directory, walking through the grid
+						for bi, nk := range neighbourKinds {
+							if (k/3)>>bi&1 == 1 {
+								c.Neighbours = append(c.Neighbours, nk)
+							}
+						}
 						if !hx.Case(t, spec, c) {
 							return
 						}
@@ -1019,6 +1072,9 @@ func TestEnum(t *testing.T) {
 	kp := 0
 	for gi, p := range grid {
 		for li, l := range plens {
+			if !hx.Thorough() && li != gi%len(plens) {
+				continue // quick: the lengths alternate over the grid
+			}
 			for _, mode := range []string{"compressed", "uncompressed"} {
 				k++
 				kp++
@@ -1027,7 +1083,11 @@ func TestEnum(t *testing.T) {
 				}
 				// first writer: p into the format named by mode; second writer: for a fixed length
 				// q walks through the whole grid as well, into the other format
-				q := grid[(gi+li+1)%len(grid)]
+				shift := li
+				if !hx.Thorough() {
+					shift = 0
+				}
+				q := grid[(gi+shift+1)%len(grid)]
 				c := Case{Size: "enum-prov", Fill: pfills[(gi+li)%len(pfills)], Len: l, Seed: uint64(l)*977 + uint64(k), Mode: mode,
 					Cacnk: []string{"oneshot", "stream"}[k%2], Raw: "valid", Corrupt: "otherdata",
 					First: []string{"compressed", "uncompressed"}[(k/2)%2], N: 1 + k%3, Repair: k%3 == 0, Keep: k%5 == 0,
@@ -1080,7 +1140,26 @@ func TestEnumStore(t *testing.T) {
 				}
 				c := Case{Size: "enum-store", Fill: []string{"rand", "text"}[(ki+li+rep)%2], Len: 100, Seed: uint64(k) * 15485863, Mode: "compressed",
 					Cacnk: "absent", Raw: "valid", Corrupt: "otherdata", First: "compressed", N: 1, Keep: true,
-					Conc: &ConcCase{Kind: kind, Rounds: hx.Pick(16, 120), LenKiB: l, Spin: 1 + 5*rep + li}}
+					Conc: &ConcCase{Kind: kind, Rounds: hx.Pick(10, 120), LenKiB: l, Spin: 1 + 5*rep + li}}
+				if !hx.Case(t, spec, c) {
+					return
+				}
+			}
+		}
+	}
+	// StoreChunk under every kind of file size limit, for both writer orders
+	ks := 0
+	for li, lim := range shortLimits {
+		for _, mode := range []string{"compressed", "uncompressed"} {
+			for si, l := range hx.Pick([]int{1, 5000}, []int{1, 300, 5000, blockSizeMax + 1, chunkMax}) {
+				k++
+				ks++
+				if k%hx.Shards() != hx.Shard() {
+					continue
+				}
+				c := Case{Size: "enum-store", Fill: []string{"text", "rand", "zero"}[(li+si)%3], Len: l, Seed: uint64(k) * 32452843, Mode: mode,
+					Cacnk: "absent", Raw: "valid", Corrupt: "otherdata", First: "compressed", N: 1, Keep: true,
+					Short: &ShortCase{Limit: lim, Delta: []int{1, 3, 64}[(li+si)%3]}}
 				if !hx.Case(t, spec, c) {
 					return
 				}
@@ -1088,6 +1167,7 @@ func TestEnumStore(t *testing.T) {
 		}
 	}
 	if hx.Shard() == 0 {
+		hx.AddNote("enum_short_write_cases", ks)
 		hx.AddNote("enum_store_cases", k)
 		hx.AddNote("enum_concurrent_cases", kc)
 	}
